@@ -178,6 +178,9 @@ def configs(tier):
             continue
         rep = 2 if size <= 5 else 1
         out.append(dict(mode="ack", nak=nak, size=size, seg=L, mpl=mpl, closure=False, rep=rep, nak_limit=3, ack_limit=2))
+    # unbounded file: the Metadata PDU announces size 0, the EOF PDU tells the real size
+    for nak in ("imm", "def"):
+        out.append(dict(mode="ack", nak=nak, size=3, seg=L, mpl=512, closure=False, rep=2, nak_limit=3, ack_limit=2, md_size=0))
     # the sender's PDUs carry the large-file flag (64 bit offsets / sizes): a NAK PDU with one request is 43 bytes, with two 59
     for nak, mpl in itertools.product(("imm", "def"), (43, 59) if tier == "quick" else (43, 59, 512)):
         out.append(dict(mode="ack", nak=nak, size=3, seg=L, mpl=mpl, closure=False, rep=2, nak_limit=3, ack_limit=2, large_pdus=True))
